@@ -15,6 +15,14 @@ THEOREMS = ['Vakt.C17.audit_effect_eq_answer', 'Vakt.C17.audit_candidates_eq_mat
             'Vakt.C17.exactly_one_audit_when_completed', 'Vakt.C17.no_audit_when_raised',
             'Vakt.C17.decision_log_once_and_agrees', 'Vakt.C17.render_count_nop', 'Vakt.C17.render_uid_desc',
             ]
+# obligations over what was translated from /repo/vakt/guard.py in this run: check_policies_allow / is_allowed_check / is_allowed
+# together with their audit_log.info(..., extra=...) calls and the decision-log call, as effects on a log value, are the model's
+# isAllowedLogged (lean/Gen/EquivGuardAudit.lean)
+EXTRA_BUILD = ['+Gen.EquivGuardAudit']
+GEN_IMPORTS = ['Gen.EquivGuardAudit']
+GEN_THEOREMS = ['Vakt.GenEquiv.gen_is_allowed_logged', 'Vakt.GenEquiv.gen_is_allowed_check_audit',
+                'Vakt.GenEquiv.gen_check_policies_allow_audit', 'Vakt.GenEquiv.gen_check_policies_allow_audit_lazy',
+                'Vakt.GenEquiv.translatedGuardAudit_covers']
 FLOOR = {'quick': 300, 'thorough': 5000}
 MSG = {'nop': PoliciesNopMsg, 'uid': PoliciesUidMsg, 'desc': PoliciesDescriptionMsg, 'count': PoliciesCountMsg}
 
